@@ -3,6 +3,8 @@ package main
 import (
 	"time"
 
+	"github.com/enfein/mieru/v3/pkg/appctl/appctlcommon"
+	"github.com/enfein/mieru/v3/pkg/appctl/appctlpb"
 	"github.com/enfein/mieru/v3/pkg/metrics"
 	pb "github.com/enfein/mieru/v3/pkg/metrics/metricspb"
 )
@@ -31,4 +33,35 @@ func init() {
 	// They cannot be exported by a hook; the boundary grid of the c19 driver ties them to the code.
 	z("C19_QuotaBytesPerMegabyte", 1048576)
 	z("C19_QuotaHoursPerDay", 24)
+	// appctlcommon.ValidateServerConfigSingleUser: the largest number of quota days the real validator accepts
+	// (maxQuotaDays is unexported; found by binary search over int32, so a weakened validator shows up here)
+	z("C19_MaxQuotaDays", largestAcceptedQuotaDays())
+}
+
+func quotaAccepted(days, mb int32) bool {
+	u := &appctlpb.User{Name: sp("u"), Password: sp("p"), Quotas: []*appctlpb.Quota{{Days: &days, Megabytes: &mb}}}
+	return appctlcommon.ValidateServerConfigSingleUser(u) == nil
+}
+
+func sp(s string) *string { return &s }
+
+// largestAcceptedQuotaDays returns the largest d in [1, 2^31-1] with validator(d) = ok, assuming acceptance is
+// downward closed above 1 (checked at the ends); 0 when not even one day is accepted.
+func largestAcceptedQuotaDays() int64 {
+	if !quotaAccepted(1, 1) {
+		return 0
+	}
+	lo, hi := int64(1), int64(1)<<31-1 // lo accepted
+	if quotaAccepted(int32(hi), 1) {
+		return hi
+	}
+	for lo+1 < hi { // hi rejected
+		m := (lo + hi) / 2
+		if quotaAccepted(int32(m), 1) {
+			lo = m
+		} else {
+			hi = m
+		}
+	}
+	return lo
 }
